@@ -2,6 +2,7 @@ package chains
 
 import (
 	"database/sql"
+	"encoding/json"
 	"fmt"
 
 	"gorm.io/gorm"
@@ -151,6 +152,12 @@ func (r Rec) goPtr() interface{} {
 		}
 		if v := f(6); v != nil {
 			it.Data = []byte(v.S)
+		}
+		if v := f(8); v != nil {
+			it.Payload = json.RawMessage(v.S)
+		}
+		if v := f(9); v != nil {
+			it.Digest = Hash(v.S)
 		}
 		return it
 	case "owners":
